@@ -20,7 +20,7 @@ TIERS = {
 RULE = ("one seed -> one base scenario: writable value = seed mod 27 (all 27 writable values, the 70 read-only ones every "
         "9th seed), seeded raw data (random, short strings, MASK/TMASK-like patterns), lock byte initially locked / unlocked "
         "/ odd, gear or device addressing, ignore_feedback / force_unlock options, bystander unit; the base runs fault-free, "
-        "then once per (fault kind, command index): unit answers NO, echoes another byte, framing error on the echo, answer "
+        "then once per (fault kind, command index): unit answers NO, echoes another byte, framing error on the echo (with garbage bits, or with exactly the written byte), answer "
         "lost on the bus, DTR0 not advancing at all / after one write, unit stays locked, non-standard unlock value, bank shorter than the value, "
         "an unrelated frame of another master before each command (resets write enable). Non-trivial iff a fault fired or "
         ">= 4 commands were exchanged; distinct = distinct (command, outcome) sequence.")
@@ -31,7 +31,7 @@ ASSUMPTIONS = [
 COMPONENTS = {"real": ["dali.memory.location.MemoryValue.write / write_raw, value_to_raw", "dali.memory.{oem,energy,diagnostics,maintenance,info} declarations",
                        "dali.gear.general / dali.device.general memory commands"],
               "stub": ["bus, control gear / control device memory (sim/busim.py)", "driver"]}
-PROBES = ["fault-answer-no", "fault-echo-other", "fault-garble", "fault-drop", "fault-dtr0-frozen", "fault-dtr0-stuck-once", "fault-stays-locked",
+PROBES = ["fault-answer-no", "fault-echo-other", "fault-garble", "fault-garble-same-bits", "fault-drop", "fault-dtr0-frozen", "fault-dtr0-stuck-once", "fault-stays-locked",
           "fault-odd-unlock-value", "fault-short-bank", "fault-foreign-frame", "readonly-refused", "device-addressing",
           "ignore-feedback", "short-string-write", "initially-unlocked", "value-level-write-int", "value-level-write-mask",
           "value-level-write-tmask", "value-level-write-str"]
@@ -104,7 +104,7 @@ def expected_raw(v, via):
     return b + (b"\x00" if len(b) < n else b"")
 
 
-FAULT_KINDS = ["no", "other", "garble", "drop", "freeze", "freeze-at", "stays-locked", "odd-unlock", "short-bank", "foreign"]
+FAULT_KINDS = ["no", "other", "garble", "garble-same", "drop", "freeze", "freeze-at", "stays-locked", "odd-unlock", "short-bank", "foreign"]
 
 
 def _find_value(key, name):
@@ -142,7 +142,7 @@ def run_plan(plan):
         unit.freeze_after.add(fi)
     if fk == "stays-locked":
         bank.ignore_unlock = True
-    if fk in ("no", "other", "garble"):
+    if fk in ("no", "other", "garble", "garble-same"):
         unit.answer_faults[fi] = fk
     bus = busim.Bus([unit, bystander])
     log = EventLog()
@@ -185,7 +185,7 @@ def run_plan(plan):
     locs = [l.address for l in v.locations][:len(raw)]
     want = dict(zip(locs, raw))
     fired = bool(foreign_fired) or (fk in ("freeze", "stays-locked", "odd-unlock", "short-bank")) or \
-        any(c[4] for c in sr.commands) or (fk in ("no", "other", "garble", "freeze-at") and unit.mem_writes > fi)
+        any(c[4] for c in sr.commands) or (fk in ("no", "other", "garble", "garble-same", "freeze-at") and unit.mem_writes > fi)
     if not writable:
         probes["readonly-refused"] = 1
         if not (sr.status == "raise" and isinstance(sr.exc, MemoryValueNotWriteable)):
@@ -202,6 +202,12 @@ def run_plan(plan):
                 key, v.name, plan["lock"], list(raw), sr.exc, [(str(c[1]), c[3]) for c in sr.commands][-4:]),
               site=type(sr.exc).__name__)
     else:
+        # returned normally although the unit visibly misbehaved on a data write
+        # whose feedback the caller had not asked to ignore
+        if fk in ("no", "other", "garble", "garble-same", "freeze", "freeze-at") and not plan["ignore_feedback"] \
+                and (unit.mem_writes > fi if fk != "freeze" else unit.mem_writes > 0):
+            V("unit-misbehaviour-not-reported", "%s.%s fault %s (data write #%d of %d): write returned normally" % (
+                key, v.name, fk, fi, unit.mem_writes), site=fk)
         # returned normally: the data must be there, nothing else touched
         bad = {a: (bank.cells[a], b_) for a, b_ in want.items() if bank.cells[a] != b_}
         if bad and not plan["ignore_feedback"]:
@@ -225,7 +231,7 @@ def run_plan(plan):
     if by_bank.cells != by_before:
         V("bystander-changed", "another unit's memory was modified")
     if fk:
-        probes["fault-" + {"no": "answer-no", "other": "echo-other", "freeze": "dtr0-frozen", "freeze-at": "dtr0-stuck-once",
+        probes["fault-" + {"no": "answer-no", "other": "echo-other", "garble-same": "garble-same-bits", "freeze": "dtr0-frozen", "freeze-at": "dtr0-stuck-once",
                            "odd-unlock": "odd-unlock-value", "foreign": "foreign-frame"}.get(fk, fk)] = 1 if fired else 0
     if plan["kind"] == "device":
         probes["device-addressing"] = 1
@@ -268,7 +274,7 @@ def run_seed(seed, tier):
     steps, nw = b["_steps"], b["_nwrites"]
     r = plans.rng_for(seed, PROP + "-variants")
     for fk in FAULT_KINDS:
-        if fk in ("no", "other", "garble", "freeze-at"):
+        if fk in ("no", "other", "garble", "garble-same", "freeze-at"):
             idxs = range(nw)
         elif fk in ("drop", "foreign"):
             idxs = range(steps + (1 if fk == "foreign" else 0))
